@@ -2,15 +2,15 @@ SPECIFICATION Spec
 CONSTANTS
   Vers = {"sasl"}
   Mechs = {"PLAIN", "DIGEST-MD5"}
-  Creds = {"right", "otherUser"}
+  Creds = {"right", "wrongPw", "victimOwnSecret", "empty"}
   BindRes = {"ra"}
   Kinds = {"message", "presence", "iq"}
   Froms = {"absent", "own", "ownBare", "victim", "other", "ownOtherRes", "ownSibling", "ownCase", "ownSlash", "ownPrefix", "ownDomain", "ownLookalike"}
   Tos = {"victimBare", "victimFull", "domain", "absent"}
-  Stanzas <- CoreStanzas
-  MaxPending = 2
-  MaxRetry = 0
-  MaxHist = 99
-VIEW GenView
-ACTION_CONSTRAINT EmitNoReauth
+  Stanzas <- NoStanzas
+  MaxPending = 1
+  MaxRetry = 2
+  MaxHist = 6
+CONSTRAINT Bound
+ACTION_CONSTRAINT EmitSaslOnly
 CHECK_DEADLOCK FALSE
